@@ -75,12 +75,25 @@ def regenerate(ctx):
                 shutil.copyfile(src, dst)
                 changed.append(f)
         for f in os.listdir(gen):
-            if f.endswith(".lean") and f not in new:
+            if f.endswith(".lean") and f not in new and f != "Bounds.lean":
                 os.remove(os.path.join(gen, f))
                 changed.append("-" + f)
         shutil.rmtree(tmp, ignore_errors=True)
         ctx["gen_changed"] = changed
-        return True, "regenerated (%d files changed)" % len(changed)
+    # second stage: derived interval bounds (Lean → Lean), re-run when the kernels changed
+    bounds = os.path.join(gen, "Bounds.lean")
+    if changed or not os.path.exists(bounds):
+        with Lock("lake.lock"):
+            rc, out, err, _ = run(["lake", "build", "Secp.Core.KernelSpecs"], cwd=LEAN, timeout=1800)
+            if rc != 0:
+                return False, "generated kernels do not elaborate: " + (out + err)[-3000:]
+            rc, out, err, _ = run(["lake", "env", "lean", "--run", "Secp/Core/GenBounds.lean"], cwd=LEAN, timeout=1800)
+            if rc != 0:
+                return False, "bounds generation failed: " + (out + err)[-3000:]
+            if not os.path.exists(bounds) or open(bounds).read() != out:
+                open(bounds, "w").write(out)
+                changed.append("Bounds.lean")
+    return True, "regenerated (%d files changed%s)" % (len(changed), ": " + ",".join(changed) if changed else "")
 
 
 # ---------------------------------------------------------------- lean build / audit
